@@ -345,7 +345,60 @@ def rule_node_arity(ctx: Ctx, rep: Report) -> None:
     rep.floor(rule, 1)
 
 
+def rule_leaf_version_masked(ctx: Ctx, rep: Report) -> None:
+    """C12.leaf_version_masked: the tapleaf hash commits to the leaf version with
+    its lowest bit cleared (that bit of the control byte is the output key's
+    parity): every `leaf_hash(version, ...)` in the taproot module is handed a
+    version that was masked with 0xFE -- in the expression, or by an `&=` of the
+    same local. A short cut that hashes the version as written makes the
+    tweaked private key another key than the output key for 0xC1."""
+    from sa.canon import expand
+    rule = "C12.leaf_version_masked"
+    n = 0
+    for q, fi in sorted(ctx.prog.functions.items()):
+        if not q.startswith(T + ".") or fi.name == "leaf_hash":
+            continue
+        for c in own_nodes(fi.node):
+            if isinstance(c, ast.Call) and call_name(c) == "leaf_hash" and c.args:
+                n += 1
+                v = c.args[0]
+                text = str(expand(fi, v)).replace(" ", "").lower()
+                masked = "&0xfe" in text or "&254" in text or any(
+                    isinstance(a, ast.AugAssign) and isinstance(a.op, ast.BitAnd) and norm(a.target) == norm(v) and ctx.fold(a.value, fi.module) == 0xFE and a.lineno < c.lineno for a in own_nodes(fi.node))
+                rep.ob(rule, f"{q}:leaf_hash", masked, fi.where(c), "the version is masked with 0xFE" if masked else
+                       f"`{norm(c)[:60]}` hashes the leaf version as it was written: for an odd version this is another leaf than the one the builder and the verifier commit to")
+    rep.floor(rule, 2)
+
+
+def rule_internal_key_unaltered(ctx: Ctx, rep: Report) -> None:
+    """C12.internal_key_unaltered: the internal key's octets go unproven into a
+    `PubKeyData(..., check_validity=False)` because whatever they are handed to
+    next proves them a point -- *those* octets. They are therefore the octets
+    `_sec_from_key` answered, whole: a slice of them behind a fresh prefix is a
+    different, well-formed key, and what was wrong with the caller's (a y off
+    the curve, a prefix that is none) is never seen by anything."""
+    rule = "C12.internal_key_unaltered"
+    fi = ctx.func(f"{T}._output_pubkey_and_internal_key")
+    sites = [c for c in own_nodes(fi.node) if isinstance(c, ast.Call) and call_name(c) == "PubKeyData" and c.args
+             and any(k.arg == "check_validity" and isinstance(k.value, ast.Constant) and k.value.value is False for k in c.keywords)]
+    sec_locals = {d.targets[0].id for d in own_nodes(fi.node) if isinstance(d, ast.Assign) and isinstance(d.targets[0], ast.Name) and isinstance(d.value, ast.Call) and call_name(d.value) == "_sec_from_key"}
+    n = 0
+    for c in sites:
+        a = c.args[0]
+        from_key = any((isinstance(x, ast.Call) and call_name(x) == "_sec_from_key") or (isinstance(x, ast.Name) and x.id in sec_locals) for x in ast.walk(a))
+        if not from_key:
+            continue  # a constant of the module (the NUMS point): nothing of the caller's in it
+        n += 1
+        whole = (isinstance(a, ast.Call) and call_name(a) == "_sec_from_key") or (isinstance(a, ast.Name) and a.id in sec_locals)
+        rep.ob(rule, "_output_pubkey_and_internal_key:unproven_octets", whole, fi.where(c), "the unproven octets are the key's own, whole" if whole else
+               f"`{norm(c)[:70]}` is built from a part of the caller's octets: what is proved a point later is not the key that was handed in")
+    rep.floor(rule, 1)
+
+
 RULES = [
+    ("C12.leaf_version_masked", rule_leaf_version_masked),
+    ("C12.internal_key_unaltered", rule_internal_key_unaltered),
+
     ("C12.node_arity", rule_node_arity),
     ("C12.leaf_as_committed", rule_leaf_as_committed),
     ("C12.loose_to_strict", rule_loose_to_strict_),
